@@ -77,12 +77,35 @@ def murmur3_token(key):
     return v
 
 
+def random_token(key):
+    """RandomPartitioner: MD5 of the key read as a signed big-endian BigInteger, absolute value (0 .. 2**127)."""
+    import hashlib
+    d = hashlib.md5(bytes(key)).digest()
+    v = int.from_bytes(d, 'big')
+    if d[0] & 0x80:
+        v -= 1 << 128
+    return -v if v < 0 else v
+
+
+def bytes_token(key):
+    """ByteOrderedPartitioner: the key itself, compared as unsigned bytes."""
+    return bytes(key)
+
+
+# short name -> (class name in system.local, key -> token, token string of the system tables -> token)
+PARTITIONERS = {
+    'murmur3': ('org.apache.cassandra.dht.Murmur3Partitioner', murmur3_token, int),
+    'random': ('org.apache.cassandra.dht.RandomPartitioner', random_token, int),
+    'bytes': ('org.apache.cassandra.dht.ByteOrderedPartitioner', bytes_token, bytes.fromhex),
+}
+
+
 class RefRing(object):
-    """nodes: list of dicts {'addr','dc','rack','tokens':[int]}"""
+    """nodes: list of dicts {'addr','dc','rack','tokens':[token values, already parsed]}"""
 
     def __init__(self, nodes):
         self.nodes = dict((n['addr'], n) for n in nodes)
-        self.ring = sorted((int(t), n['addr']) for n in nodes for t in n['tokens'])
+        self.ring = sorted((t if isinstance(t, bytes) else int(t), n['addr']) for n in nodes for t in n['tokens'])
 
     def walk(self, token):
         """Addresses in ring order starting at the owner of `token` (first ring token >= token, wrapping), one entry per ring token."""
